@@ -195,6 +195,43 @@ func TestC04(t *testing.T) {
 			r.Violation(t, "purity", c, "%s", o.msg)
 		}
 	})
+	// Directed family: a short last block. With one job the block tasks reuse buffers that were sized for the full
+	// blocks before it; with more jobs than blocks every block gets fresh buffers sized for its own length. A
+	// transform whose decision ("the output does not fit: decline") looks at the buffer it was handed rather than at
+	// the block then codes the same block differently. Data at the margin of each transform (hardly compressible),
+	// every transform alone, block 1024, last block 1024-d bytes.
+	{
+		idx := 0
+		ds := []int{1, 2, 3, 5, 8, 13, 21, 40}
+		if r.Thorough() {
+			ds = nil
+			for d := 1; d <= 64; d++ {
+				ds = append(ds, d)
+			}
+		}
+		for _, tr := range gen.TransformNames[1:] {
+			for _, kind := range []int{gen.KRandom, gen.KWav, gen.KSkewed, gen.KText} {
+				for _, d := range ds {
+					idx++
+					if !r.Mine(idx) || r.Failed() {
+						continue
+					}
+					c := C04Case{Cfg: gen.Config{Transform: tr, Entropy: []string{"NONE", "FPAQ"}[idx%2], BlockSize: 1024, Jobs: 1, Checksum: 0, HintClass: "absent"},
+						Data: gen.Recipe{Kind: kind, Len: 5*1024 + 1024 - d, Seed: uint64(idx), P1: 2, P2: 2}, Variants: []C04Variant{{Jobs: 8}, {Jobs: 3}}}
+					r.Label("directed:short-last-block")
+					if o := c04Eval(r, c); o.msg != "" {
+						if r.Survey() {
+							r.Violation(t, "purity", c, "%s", o.msg)
+							continue
+						}
+						r.RecordFailure("purity", c, "", o.msg)
+						t.Fatalf("short-last-block family: %s on %s", o.msg, jsonOf(c))
+					}
+				}
+			}
+		}
+		r.SetExhaustive("short last block x every transform x 4 marginal data kinds x jobs {1,3,8}", true)
+	}
 	// forced reverse completion order (controlled scheduler), whole batches only
 	r.Rapid(t, "reverse-order", 150, 4000, func(t *rapid.T) {
 		var c C04Case
